@@ -1001,6 +1001,16 @@ class PrimMixin:
             return self.list_to_arr(st.alloc(HList(list(v))), st)
         raise Unsupported("atleast_1d of %s" % kind_of(v), node)
 
+    def np_iterable(self, args, kw, st, fr, node):
+        v = args[0]
+        if isinstance(v, (str, tuple)):
+            return True
+        if isinstance(v, Ref):
+            return True
+        if kind_of(v) in ("int", "real", "bool", "none"):
+            return False
+        raise Unsupported("np.iterable of %s" % kind_of(v), node)
+
     def np_isscalar(self, args, kw, st, fr, node):
         return kind_of(args[0]) in ("int", "real", "bool", "str")
 
